@@ -25,6 +25,10 @@ fn diag_json(d: &Diagnostic) -> Value {
 /// Mirrors `lelwel::compile` without format/verbose/graph: parse, analyse, and
 /// write `generated.rs` into `outdir` iff there is no error diagnostic.
 fn gen_one(input: &Path, outdir: &Path) -> Value {
+    gen_one_opt(input, Some(outdir))
+}
+
+fn gen_one_opt(input: &Path, outdir: Option<&Path>) -> Value {
     let source = match std::fs::read_to_string(input) {
         Ok(s) => s,
         Err(e) => return json!({"io_error": e.to_string()}),
@@ -36,7 +40,7 @@ fn gen_one(input: &Path, outdir: &Path) -> Value {
         let accepted = !diags.iter().any(|d| d.severity == Severity::Error);
         let mut wrote = false;
         let mut gen_err = Value::Null;
-        if accepted {
+        if let (true, Some(outdir)) = (accepted, outdir) {
             std::fs::create_dir_all(outdir).ok();
             match RustOutput::run(&cst, &sema, input, outdir) {
                 Ok(()) => wrote = true,
@@ -70,6 +74,14 @@ fn main() {
                 let mut it = line.split('\t');
                 let (Some(i), Some(o)) = (it.next(), it.next()) else { continue };
                 let v = gen_one(Path::new(i), Path::new(o));
+                writeln!(out, "{v}").unwrap();
+            }
+        }
+        // stdin: one grammar file path per line; analysis only, nothing is written
+        Some("batch-sema") => {
+            for line in std::io::stdin().lock().lines() {
+                let line = line.unwrap();
+                let v = gen_one_opt(Path::new(line.trim()), None);
                 writeln!(out, "{v}").unwrap();
             }
         }
